@@ -30,6 +30,20 @@ for _body, _msg in RETHROW:
                    "want": _msg, "why": "a re-thrown error crosses a function boundary and an outer handler unchanged"})
 EXPECT.append({"src": "e = nil; try { throw \"first\" } catch a { e = a }; r = 0; try { throw e } catch b { r = 1 }; r", "field": "result", "want": "i:1",
                "why": "throwing a stored error value raises an error"})
+# a deferred Go function that panics is one failing deferred call: the defers registered before it still run, and an error of the body wins
+EXPECT += [
+    {"src": "func f() { defer probe(1); defer hpanic(2); probe(0) }\ntry { f() } catch e { probe(9) }", "field": "trace", "want": "(i:0);(i:1);(i:9)",
+     "why": "defers registered before a panicking deferred Go call still run, then the error reaches the caller's try"},
+    {"src": "defer probe(1); defer hpanic(2); defer probe(3); probe(0)", "field": "trace", "want": "(i:0);(i:3);(i:1)",
+     "why": "at top level, defers around a panicking deferred Go call all run, in reverse order"},
+    {"src": "defer probe(1); defer hpanic(2); probe(0)", "field": "msg", "want": "boom", "why": "the panic of a deferred Go call surfaces when the body did not fail"},
+    {"src": "func f() { defer probe(1); defer hpanic(2); throw \"body\" }\nf()", "field": "msg", "want": "body",
+     "why": "an error raised by a deferred call does not replace the error of the body"},
+    {"src": "func f() { defer probe(1); defer hpanic(2); throw \"body\" }\nf()", "field": "trace", "want": "(i:1)",
+     "why": "after a failing body and a panicking deferred Go call the remaining defers still run"},
+    {"src": "func f() { defer probe(1); defer func() { hpanic(2) }(); defer func() { throw \"t\" }(); return 5 }\nr = 0; try { r = f() } catch e { r = -1 }; r", "field": "trace", "want": "(i:1)",
+     "why": "several failing deferred calls: every defer still runs once"},
+]
 
 
 def run(tier, seed, replay=None):
